@@ -78,6 +78,8 @@ impl CloudSpec {
 
 #[derive(Clone, Debug, PartialEq, Serialize, Deserialize)]
 pub enum Op {
+    /// add_blob from a source that reports an error after `after` bytes: the call must fail; the caller carries on
+    BlobFailing { spec: BlobSpec, after: u32 },
     Ext { prefix: String, url: String },
     Creation(Option<DT>),
     CoordMeta(Option<String>),
@@ -98,6 +100,8 @@ pub enum End {
     /// a first finalize_customized_xml call whose transformer refuses (must return the error), then these
     /// late setter calls (only `Creation` / `CoordMeta`), then an ordinary finalize
     RejectedThenFinalize { late: Vec<Op> },
+    /// finalize_customized_xml with a transformer applying these literal replacements (all occurrences, in order)
+    FinalizeReplace(Vec<(String, String)>),
 }
 
 /// Remove the line breaks outside CDATA sections.
@@ -150,10 +154,12 @@ pub struct GenOpts {
     pub compact_chance: (u64, u64),
     /// chance that a cloud's history contains add_point calls that must be rejected
     pub reject_chance: (u64, u64),
+    /// chance that an add_blob call whose source breaks down part way is put in front of an operation
+    pub failing_blob_chance: (u64, u64),
 }
 impl Default for GenOpts {
     fn default() -> Self {
-        GenOpts { max_ops: 6, max_values: 60_000, density: 2, images: true, blobs: true, nan_ok: true, fat_chance: (1, 4), limit_overrides: false, compact_chance: (0, 1), reject_chance: (0, 1) }
+        GenOpts { max_ops: 6, max_values: 60_000, density: 2, images: true, blobs: true, nan_ok: true, fat_chance: (1, 4), limit_overrides: false, compact_chance: (0, 1), reject_chance: (0, 1), failing_blob_chance: (0, 1) }
     }
 }
 
@@ -165,14 +171,20 @@ pub fn compact_cloud(s: &mut Src) -> CloudSpec {
     let names = ["cartesianX", "cartesianY", "cartesianZ", "intensity", "rowIndex", "columnIndex"];
     let k = 3 + s.below(4) as usize;
     let mut proto = Vec::new();
+    // 1 in 3: voxel-like, every record 1..3 bits wide, so that one data packet carries far more than 65535 points
+    let narrow = s.chance(1, 3);
     for name in names.iter().take(k) {
-        let w = 1 + s.below(31) as u32;
+        let w = if narrow { 1 + s.below(3) as u32 } else { 1 + s.below(31) as u32 };
         let (min, max) = gen::int_range_of_width(s, w);
         let ty = if matches!(*name, "rowIndex" | "columnIndex") || s.flag() { RType::Int { min, max } } else { RType::Scaled { min, max, scale: F64(0.001), offset: F64(0.0) } };
         proto.push(Rec { prefix: None, name: name.to_string(), ty });
     }
+    if s.chance(1, 3) {
+        // a constant record (min = max) next to them: its values are synthesised by the reader
+        proto.push(Rec { prefix: None, name: "timeStamp".to_string(), ty: RType::Int { min: 7, max: 7 } });
+    }
     let cap = gen::cap_hint(&proto).unwrap_or(1000) as u32;
-    let n = (*s.pick(&[2 * cap + 1, 2 * cap + 2, 3 * cap + 1, 2 * cap - 1, 2 * cap + 1, 5 * cap + 3, 8 * cap + 1])).min(400_000);
+    let n = (*s.pick(&[2 * cap + 1, 2 * cap + 2, 3 * cap + 1, 2 * cap - 1, 2 * cap + 1, 5 * cap + 3, 8 * cap + 1])).min(if narrow { 450_000 } else { 400_000 });
     CloudSpec { guid: gen::guid(s), proto, n, seed: s.u64(), nan_ok: true, meta: CloudMeta::default(), finalize: true, clear_limits: 0, rejects: vec![] }
 }
 
@@ -210,6 +222,11 @@ pub fn valid_program(s: &mut Src, o: &GenOpts) -> Program {
     }
     let k = 1 + s.below(o.max_ops as u64) as usize;
     for _ in 0..k {
+        if s.chance(o.failing_blob_chance.0, o.failing_blob_chance.1) {
+            let spec = gen::blob_spec(s);
+            let after = if spec.len == 0 { 0 } else { s.below(spec.len as u64) as u32 };
+            ops.push(Op::BlobFailing { spec, after });
+        }
         match s.weighted(&[6, if o.blobs { 2 } else { 0 }, if o.images { 2 } else { 0 }]) {
             0 => ops.push(Op::Cloud(cloud_spec(s, &prefixes, o))),
             1 => ops.push(Op::Blob(gen::blob_spec(s))),
@@ -484,6 +501,17 @@ pub fn exec(p: &Program, dev: MemDev, tr: &mut Trace) {
                 let blob = call!(tr, "add_blob", w.add_blob(&mut r));
                 tr.blobs.push((blob.offset, blob.length));
             }
+            Op::BlobFailing { spec, after } => {
+                let data = spec.bytes();
+                let cut = (*after as usize).min(data.len());
+                let mut r = gen::FailingSource { inner: gen::Trickle { data: &data[..cut], chunk: spec.chunk as usize, calls: 0 } };
+                tr.current = "add_blob (failing source)".into();
+                tr.calls += 1;
+                if let Ok(b) = w.add_blob(&mut r) {
+                    tr.error = Some(("add_blob".into(), format!("reported success (length {}) although its source reported an error after {cut} bytes", b.length)));
+                    return;
+                }
+            }
             Op::Image(im) => {
                 exec_image(&mut w, im, tr);
                 if tr.error.is_some() {
@@ -571,6 +599,28 @@ pub fn exec(p: &Program, dev: MemDev, tr: &mut Trace) {
                     return;
                 }
             }
+        }
+        End::FinalizeReplace(pairs) => {
+            marker.mark("finalize");
+            tr.finalize_entered = true;
+            let captured = std::cell::RefCell::new(None);
+            let r = w.finalize_customized_xml(|xml| {
+                let mut out = xml;
+                for (a, b) in pairs {
+                    out = out.replace(a.as_str(), b.as_str());
+                }
+                *captured.borrow_mut() = Some(out.clone());
+                Ok(out)
+            });
+            tr.current = "finalize_customized_xml".into();
+            tr.calls += 1;
+            tr.xml_out = captured.into_inner();
+            if let Err(e) = r {
+                tr.error = Some(("finalize_customized_xml".into(), e.to_string()));
+                return;
+            }
+            tr.after_ok("finalize_customized_xml");
+            tr.finalized = true;
         }
         End::FinalizeMinified { keep_first } => {
             marker.mark("finalize");
@@ -676,7 +726,7 @@ pub fn expected_scene(p: &Program) -> Scene {
             Op::Ext { prefix, url } => s.extensions.push((prefix.clone(), url.clone())),
             Op::Creation(v) => s.creation = v.clone(),
             Op::CoordMeta(v) => s.coord_meta = v.clone(),
-            Op::Blob(_) => {}
+            Op::Blob(_) | Op::BlobFailing { .. } => {}
             Op::Image(im) => {
                 if im.finalize {
                     s.images.push(gen::image_to_scene(im));
